@@ -477,6 +477,30 @@ func (e *Env) binary(n *EBin) TV {
 	l, r := e.tr(n.L), e.tr(n.R)
 	switch n.Op {
 	case "==", "!=":
+		// typeof(x) compared with a type that has a single value (struct{}): an interface value of
+		// that dynamic type holds that value - stated for this x only (interface values are pairs
+		// the program built, not arbitrary pairs)
+		for _, pr := range [][2]Expr{{n.L, n.R}, {n.R, n.L}} {
+			call, ok1 := pr[0].(*ECall)
+			tl, ok2 := pr[1].(*ETypeLit)
+			if !ok1 || !ok2 {
+				continue
+			}
+			if id, ok := call.Fun.(*EIdent); !ok || id.Name != "typeof" || len(call.Args) != 1 {
+				continue
+			}
+			t, _ := e.resolveType(tl.Ty)
+			if t == nil {
+				continue
+			}
+			if stt, ok := t.Underlying().(*types.Struct); ok && stt.NumFields() == 0 {
+				x := e.tr(call.Args[0])
+				if x.Sort == sIface && !strings.Contains(x.S, "q$") {
+					bx := vc.enc.box(vc.enc.zero(t), t)
+					vc.emit(implies(eq("(if-tag "+x.S+")", fmt.Sprint(vc.prog.typeTag(t))), eq("(if-data "+x.S+")", bx)))
+				}
+			}
+		}
 		var s string
 		if l.Sort == "nil" && r.Sort == "nil" {
 			s = "true"
